@@ -63,6 +63,10 @@ def bounded(tier, seed):
     for a, b in ((0.51, -127.39), (0.49, -127.45), (0.3, -127.0), (0.51, -126.0)):
         check(np.array([[0, a, b], [0, 0, 0]]), 'negative difference of about -127.9 steps after a rounded-up cell')
         check(np.array([[0, -a, -b], [0, 0, 0]]), 'positive difference of about +127.9 steps after a rounded-down cell')
+    # two consecutive drops of almost 128 steps: the second one starts from a reconstruction that is already 1.39 steps too high
+    for a, b, c in ((0.51, -127.39, -255.2), (0.51, -127.39, -254.9)):
+        check(np.array([[0, a, b, c], [0, 0, 0, 0]]), 'two consecutive drops of about -127.9 steps')
+        check(np.array([[0, -a, -b, -c], [0, 0, 0, 0]]), 'two consecutive rises of about +127.9 steps')
     # negative differences within 0.4 % below a power of two
     for drop in (3.99, 0.499, 255.5, 1.995, 127.9):
         check(np.array([[10., 10. - drop, 10. - drop, 9.], [10., 10., 10., 10.]]), 'drop just below a power of two')
